@@ -143,9 +143,28 @@ def oracle_multimodel(case):
     return out
 
 
+def build_assembly(case):
+    import numpy as np
+    from rnapolis.tertiary import Structure3D
+
+    s3 = corpus.structure(case["file"])
+    P = np.array([[a.x, a.y, a.z] for r in s3.residues for a in r.atoms])
+    step = float(P[:, 0].max() - P[:, 0].min()) + 15.0
+    residues = []
+    for c in range(case["copies"]):
+        part = gen3d.rebuild(s3, point_fn=lambda xyz, ri, k, c=c: xyz + np.array([c * step, 0.0, 0.0]),
+                             chain_map={ch: f"{ch}{c}" for ch in {r.chain for r in s3.residues}})
+        residues += list(part.residues)
+    return Structure3D(residues)
+
+
 def oracle(case):
     if case.get("kind") == "multimodel":
         return oracle_multimodel(case)
+    if case.get("kind") == "assembly":
+        ds, info = evaluate(build_assembly(case))
+        case["_info4"] = info
+        return ds
     s3 = c03.load_case(case)
     if case.get("kind") == "steered-stack":
         # self-check of the construction against the reference model: the steered quantity sits where it was put
@@ -190,6 +209,9 @@ def plan(tier, seed):
     specs += [{"kind": "steered", "files": files, "examples": ex, "seed": seed * 1000 + 400 + k} for k in range(n)]
     n, ex = (4, 40) if tier == "quick" else (8, 1500)
     specs += [{"kind": "crowd", "files": files, "examples": ex, "seed": seed * 1000 + 500 + k} for k in range(n)]
+    # a structure of ribosome size: translated, non-touching copies of a corpus structure as chains of one model (more
+    # than 4096 candidate pairs within 6 A) - batching and block-wise processing inside the search act only here
+    specs += [{"kind": "assembly", "files": ["6g90_1.cif"], "copies": 12 if tier == "quick" else 20}]
     # several models in one structure object (numbered 1..k, from 0, or otherwise), each annotated by its number
     n, ex = (4, 15) if tier == "quick" else (8, 300)
     specs += [{"kind": "multimodel", "files": corpus.SMALL[:8], "examples": ex, "seed": seed * 1000 + 600 + k} for k in range(n)]
@@ -220,6 +242,13 @@ def run_shard(spec) -> ShardResult:
 
         run_hypothesis(PROP_ID, gen3d.st_crowd(files), oracle, seed=spec["seed"], max_examples=spec["examples"],
                        result=res, to_json=c03.to_json, classify=cl)
+    elif spec["kind"] == "assembly":
+        for f in files:
+            case = {"kind": "assembly", "file": f, "copies": spec["copies"]}
+            check_case(PROP_ID, oracle, case, res, to_json=c03.to_json)
+            nt, labs = classify(case)
+            info = case.get("_info4") or {}
+            res.note_case({**c03.to_json(case), "residues": info.get("residues"), "expected": info.get("expected")}, nt, list(labs) + ["assembly-of-translated-copies"])
     elif spec["kind"] == "multimodel":
         from rnaverif.props import c11
 
